@@ -12,7 +12,7 @@ import (
 
 func init() {
 	register("C01",
-		"Decides structural necessary conditions of the FIFO contract of UnsafeLinkBuffer, not the byte values: (R1) in every size-taking Reader method nothing is mutated before the Len() < n test has failed (a short read consumes nothing); (R2) every method that advances a node's read offset first subtracts from the atomic length through recalLen with a negated count, and every method that makes bytes readable (Flush, bookAck, WriteBuffer) adds through recalLen; (R3) the length has a single writer set (recalLen, Close, the fresh Slice reader, the donor reset) and the Peek cache is invalidated inside recalLen on every negative delta; (R4) every nil-returning path of MallocAck stores the malloc offset of the node the write cursor ends on (bytes discarded by MallocAck(0) do not become readable); (R5) a node's Malloc is reached only after growth() (which leaves on a managed node with room, or a fresh one) or from book(); (R6) the reader side never reads the writer's cursor (it stops at flush), and Append links the donor chain from the donor's read cursor; (R7, shared with C02) Slice nodes pin the root block by its reference count; (R8) every site that makes bytes pending adds the same count to mallocSize; (R9) Slice refers and links every node it marks; (R10) MallocAck's discard walk and WriteDirect's write cursor go to the end of the chain. Not decided: which bytes are returned, order, exactly-once, Len/MallocLen values, node-boundary arithmetic, Append/Slice content - value properties of a linked structure that need shape analysis plus arithmetic.",
+		"Decides structural necessary conditions of the FIFO contract of UnsafeLinkBuffer, not the byte values: (R1) in every size-taking Reader method nothing is mutated before the Len() < n test has failed (a short read consumes nothing); (R2) every method that advances a node's read offset first subtracts from the atomic length through recalLen with a negated count, and every method that makes bytes readable (Flush, bookAck, WriteBuffer) adds through recalLen; (R3) the length has a single writer set (recalLen, Close, the fresh Slice reader, the donor reset) and the Peek cache is invalidated inside recalLen on every negative delta; (R4) every nil-returning path of MallocAck stores the malloc offset of the node the write cursor ends on (bytes discarded by MallocAck(0) do not become readable); (R5) a node's Malloc is reached only after growth() (which leaves on a managed node with room, or a fresh one) or from book(); (R6) the reader side never reads the writer's cursor (it stops at flush), and Append links the donor chain from the donor's read cursor; (R7, shared with C02) Slice nodes pin the root block by its reference count; (R8) every site that makes bytes pending adds the same count to mallocSize; (R9) Slice refers and links every node it marks; (R10) MallocAck's discard walk and WriteDirect's write cursor go to the end of the chain; (R11) a node's own buffer is cut to a constant length only where its read offset is reset as well (off <= len(buf)). Not decided: which bytes are returned, order, exactly-once, Len/MallocLen values, node-boundary arithmetic, Append/Slice content - value properties of a linked structure that need shape analysis plus arithmetic.",
 		[]string{"single reader / single writer per buffer (API contract)"},
 		func(r *Run) {
 			cfgs := []string{"linux"}
@@ -834,6 +834,42 @@ func c01(r *Run) {
 			wit := ss.Find(startsAfter(links), nil, true)
 			r.Visited += ss.Visited
 			r.obW("C01.R10:write-cursor-ends-on-the-last-node", "after WriteDirect linked its nodes in, it returns only once it has seen b.write.next == nil: the write cursor is on the last node of the chain, so Flush (which commits flush..write) reaches everything that was reserved", wd, nil, wit, "exit guarded by b.write.next == nil")
+		}
+	}
+	// ---- R11 node invariant off <= len(buf): a re-slice of a node's own buffer to a constant length needs the read offset reset ----
+	{
+		for _, fn := range w.Funcs {
+			fn := fn
+			n := 0
+			forEachIns(fn, func(i ssa.Instruction) {
+				st, ok := i.(*ssa.Store)
+				if !ok || !isStoreToField(i, "linkBufferNode", "buf") {
+					return
+				}
+				sl, ok := st.Val.(*ssa.Slice)
+				if !ok || sl.Low != nil || sl.High == nil {
+					return
+				}
+				node, ok := loadOfField(sl.X, "linkBufferNode", "buf")
+				if !ok || node != st.Addr.(*ssa.FieldAddr).X {
+					return // a slice of some other memory (caller's slice, another node): judged by C02/C03
+				}
+				k, isConst := constInt(sl.High)
+				if !isConst {
+					return // a bound read from the node (off / malloc) or computed: value arithmetic, not decided
+				}
+				n++
+				// the same function stores the same constant (or a smaller one) into this node's read offset
+				okOff := false
+				forEachIns(fn, func(j ssa.Instruction) {
+					if s2, ok := j.(*ssa.Store); ok && isStoreToField(j, "linkBufferNode", "off") && s2.Addr.(*ssa.FieldAddr).X == node {
+						if c, isC := constInt(s2.Val); isC && c <= k {
+							okOff = true
+						}
+					}
+				})
+				r.ob("C01.R11:truncation-keeps-read-offset-inside:"+w.FnName(fn)+ordinal(n-1), "a node's buffer is cut to a constant length only where the node's read offset is set to that constant too (node invariant off <= len(buf) <= malloc): a node whose read offset lies behind its committed length reports a negative Len() and the next Flush commits bytes nobody wrote", fn, i, okOff, "node.off stored with a constant <= the new length in the same function", true)
+			})
 		}
 	}
 	// R7: a block that is still being read must not be recycled under the reader (borrowed reference-count rules)
